@@ -63,6 +63,20 @@ def gen(seed, tier):
             else:
                 segs.append(seg(t, filler(g, r.randint(5, 25), others) + [g.any_frame(target)] + filler(g, r.randint(0, 14), others)))
         cases.append(H("C12-%d" % i, o, segs))
+    # a silent aircraft's own frame is the one that triggers the sweep (the 12th applied frame of the run): the frame
+    # refreshes the row BEFORE the sweep looks at it, so the row stays and keeps what it knew (callsign)
+    for i in range(8 if tier == "quick" else 80):
+        d = r.choice([1, 5, 60])
+        pool = r.sample(ICAOS, 4)
+        target, others = pool[0], pool[1:]
+        o = {"d": d}
+        if i % 2:
+            o["U"] = 1
+        k = 11      # (with 22 the sweep at the 12th frame would already have removed the stale row, rightly)
+        refresher = r.choice([g.f_df11(target), g.f_short(4, target), g.f_long(r.choice([20, 21]), target), g.f_df17(target, g.me_velocity(1))])
+        segs = [seg(0, [g.f_df17(target, me_ident(4, 3, [ia5_code(c) for c in "KEEPME12"]))]),
+                seg(d * 1000 + r.choice([0, 500, 5000]), filler(g, k, others) + [refresher] + filler(g, r.randint(0, 5), others))]
+        cases.append(H("C12-k%d" % i, o, segs))
     # the cadence does not depend on the size of the table: dozens of aircraft heard once, silence beyond the limit, then one
     # aircraft sending 12 frames in a fresh reader run -- only that one remains
     for i in range(4 if tier == "quick" else 30):
@@ -133,6 +147,14 @@ def oracle(parts, outcome, obs):
     d = int(opts.get("d", "60"))
     segs = pyspec.case_segments(parts)
     osegs = obs.split("#")
+    if parts[0].startswith("C12-k"):
+        tgt = pyspec.frame_of_line(segs[0][1][0])[1]
+        rows = pyspec.rows_of(osegs[-1]) if len(osegs) == 2 else {}
+        if tgt not in rows:
+            return "the aircraft whose own frame triggered the sweep is not in the table"
+        if rows[tgt].get("ais") != '"KEEPME12"':
+            return "the aircraft whose own frame triggered the sweep lost its callsign (%s): the row was re-created instead of refreshed" % rows[tgt].get("ais")
+        return None
     last = {}        # icao -> time of last applied frame
     fails = []
     for k, (t, lines) in enumerate(segs):
